@@ -438,3 +438,46 @@ def rf47(run):
                       'callee that calls back into interpreted code makes the nested call () reuse or reallocate that buffer, so the outer '
                       'results are lost (or written into freed memory)' % (F.src(buf), kind[1]), line=tramp[0]['l'])
     run.min_instances(rule, 1)
+
+
+# ---------------------------------------------------------------------------------------------
+# RF42b: one lref slot, several engines
+# ---------------------------------------------------------------------------------------------
+
+def rf42b(run):
+    rule = 'RF42b'
+    run.rule(rule, 'the memory cell of an lref data item holds one address, yet it is filled with engine-specific values: interpreter '
+                   'code addresses by generate_icode and machine-code addresses by the generator. A function that is prepared by one '
+                   'engine after the other leaves the cell valid for the last one only, so an indirect jump through the table under '
+                   'the first engine goes to a foreign address. Each engine-specific writer of the shared cell is reported')
+    writers = []
+    for unit in ('mir', 'gen'):
+        tu = run.tu(unit)
+        for f in tu.func_list:
+            if f.body is None:
+                continue
+            for x in f.walk():
+                if x['k'] == 'BinaryOperator' and x['op'] == '=':
+                    l = F.strip(x['c'][0])
+                    if l['k'] == 'UnaryOperator' and l['op'] == '*' and 'load_addr' in F.src(l) and 'lref' in F.src(l):
+                        lt = tu.type(l)
+                        if lt is not None and lt.kind == 'ptr':
+                            writers.append((unit, f, x))
+    engines = {}
+    for unit, f, x in writers:
+        eng = 'interpreter' if f.relfile().endswith('mir-interp.c') else 'generator'
+        engines.setdefault(eng, []).append((unit, f, x))
+    run.functions_analysed.update((u, f.name) for u, f, x in writers)
+    if not writers:
+        raise F.AnalysisBroken('no writer of lref data cells found')
+    if len(engines) <= 1:
+        run.ob(rule, ('single-engine',), True, {'engines writing lref cells': sorted(engines)})
+        return
+    # the minority engine's writer is the one that breaks already generated code
+    for unit, f, x in engines.get('interpreter', []):
+        run.ob(rule, ('shared-cell', f.name), False, {'writer': '%s:%d %s' % (f.relfile(), x['l'], f.name), 'also written by': sorted(
+            '%s:%s' % (g.relfile(), g.name) for u, g, y in engines.get('generator', []))})
+        run.violation(rule, f, 'lref cell shared with the generator',
+                      '%s stores interpreter code addresses into the lref data cells that generated code reads (written by %s): after '
+                      '"generate f; call it; interpret f" the generated code jumps through the table to interpreter addresses'
+                      % (f.name, ', '.join(sorted(g.name for u, g, y in engines.get('generator', [])))), line=x['l'])
